@@ -8,7 +8,7 @@ import numpy as np
 EXTRA_ORDER = ("part", "time", "site", "lat", "lon")
 
 
-def catalogue(include_watershed=True, include_hmax=False):
+def catalogue(include_watershed=True, include_hmax=False, include_hp01=False):
     C = {}
     for nm in ["hs", "hrms", "tm01", "tm02", "dm", "dp", "dpm", "dspr", "dpspr", "swe", "sw", "gw", "goda", "alpha", "gamma",
                "uss", "uss_x", "uss_y", "mss", "oned", "to_energy", "tp", "fp"]:
@@ -39,10 +39,15 @@ def catalogue(include_watershed=True, include_hmax=False):
         C["ptm2"] = lambda da, aux: da.spec.partition.ptm2(aux["wspd"], aux["wdir"], aux["dpt"], swells=2)
         C["ptm3"] = lambda da, aux: da.spec.partition.ptm3(parts=3)
         C["ptm1_smooth"] = lambda da, aux: da.spec.partition.ptm1(aux["wspd"], aux["wdir"], aux["dpt"], swells=2, smooth=True)
+    # Hanson & Phillips merging on top of the watershed (experimental in the library: only the layout check uses it); hs_min is set relative to the total height so that the
+    # "always merge partitions smaller than hs_min" rule is exercised whatever the magnitude of the generated spectra
+    if include_watershed and include_hp01:
+        C["hp01"] = lambda da, aux: da.spec.partition.hp01(aux["wspd"], aux["wdir"], aux["dpt"], swells=2,
+                                                           hs_min=0.45 * float(da.spec.hs().max()))
     return C
 
 
-WATERSHED = {"ptm1", "ptm2", "ptm3", "ptm1_smooth"}
+WATERSHED = {"ptm1", "ptm2", "ptm3", "ptm1_smooth", "hp01"}
 FLOAT32_OUT = {"tp", "fp", "tp_discrete", "dp", "dpm", "dpspr", "alpha", "gamma", "stats", "scale_by_hs"}
 
 
@@ -57,7 +62,7 @@ def _dd(da):
     return min(x, 360 - x)
 
 
-PART_HEADS = {"ptm1": 1, "ptm1_smooth": 1, "ptm2": 2, "ptm3": 0}
+PART_HEADS = {"ptm1": 1, "ptm1_smooth": 1, "ptm2": 2, "ptm3": 0, "hp01": 1}
 
 
 def sort_parts(c, heads):
